@@ -4,6 +4,7 @@ import (
 	"bytes"
 	"errors"
 	"fmt"
+	"io"
 	"reflect"
 	"sort"
 	"strings"
@@ -265,7 +266,7 @@ func TestChainTransparency(t *testing.T) {
 			hdr.SSRC, hdr.SequenceNumber, hdr.PayloadType = ssrc, seq, 96
 			hdr.Timestamp = uint32(seq) * 3000
 			if twccID > 0 { // the application (or an earlier stage) supplies the extension; the header-extension interceptor may replace it
-				_ = hdr.DelExtension(uint8(twccID)) //nolint:gosec
+				_ = hdr.DelExtension(uint8(twccID))          //nolint:gosec
 				hdr = kit.WithTWCC(hdr, uint8(twccID), twcc) //nolint:gosec
 			}
 			if len(hdr.CSRC) > 0 || hdr.Padding || len(hdr.GetExtensionIDs()) > 1 {
@@ -371,9 +372,14 @@ func TestChainTransparency(t *testing.T) {
 				t.Fatalf("harness: %v", err)
 			}
 			h.U(2, uint64(r.info.SSRC), uint64(seq)).I(len(raw))
+			readErr := errRead
+			if fail && rapid.IntRange(0, 2).Draw(t, "shortBuffer") == 0 {
+				// what a packet buffer returns for a datagram larger than the caller's buffer: the bytes that fit, with io.ErrShortBuffer
+				readErr = io.ErrShortBuffer
+			}
 			if fail {
 				r.src.mu.Lock()
-				r.src.fail[r.src.n] = failure{err: errRead, bytes: raw}
+				r.src.fail[r.src.n] = failure{err: readErr, bytes: raw}
 				r.src.mu.Unlock()
 			} else {
 				r.src.Push(raw)
@@ -382,8 +388,8 @@ func TestChainTransparency(t *testing.T) {
 			n, _, rerr := r.r.Read(buf, interceptor.Attributes{})
 			r.reads++
 			if fail {
-				if !errors.Is(rerr, errRead) {
-					t.Fatalf("%s: the wrapped reader failed but Read returned n=%d err=%v", where, n, rerr)
+				if !errors.Is(rerr, readErr) {
+					t.Fatalf("%s: the wrapped reader failed (%v) but Read returned n=%d err=%v", where, readErr, n, rerr)
 				}
 
 				return
